@@ -85,6 +85,10 @@ type Ref struct {
 	Child int    `json:"c"`
 	Role  string `json:"role,omitempty"`
 	Pre   bool   `json:"pre,omitempty"` // the input reference already carries a (bogus) annotation
+	// Loc: the input reference carries a location but no version / changeset (ways read with
+	// locations on way nodes, partly pre-annotated input): it is NOT annotated, so a ChildFilter
+	// must not keep it from being annotated. Exclusive with Pre.
+	Loc bool `json:"loc,omitempty"`
 }
 
 // PVer is one version of the parent.
@@ -207,6 +211,8 @@ func (h *H) BuildWays() osm.Ways {
 			wn := osm.WayNode{ID: osm.NodeID(h.Children[r.Child].Ref)}
 			if r.Pre {
 				wn.Version, wn.ChangesetID, wn.Lat, wn.Lon = preVersion(j), PreChangeset, PreLat, PreLon
+			} else if r.Loc {
+				wn.Lat, wn.Lon = PreLat, PreLon
 			}
 			w.Nodes = append(w.Nodes, wn)
 		}
@@ -234,6 +240,8 @@ func (h *H) BuildRelations() osm.Relations {
 			m := osm.Member{Type: c.Type, Ref: c.Ref, Role: rf.Role}
 			if rf.Pre {
 				m.Version, m.ChangesetID, m.Lat, m.Lon = preVersion(j), PreChangeset, PreLat, PreLon
+			} else if rf.Loc {
+				m.Lat, m.Lon = PreLat, PreLon
 			}
 			r.Members = append(r.Members, m)
 		}
@@ -658,6 +666,9 @@ func (h *H) Features() []string {
 			}
 			if r.Pre {
 				set["pre"] = true
+			}
+			if r.Loc {
+				set["location-only"] = true
 			}
 		}
 	}
